@@ -23,14 +23,28 @@ enum Q {
 }
 
 pub fn timeline_case(r: &mut Rng, n_peers: usize, minutes: u64, gap_ms: u64, server_mode: bool, blackout: Option<(u64, u64)>) -> String {
+    timeline_case_x(r, n_peers, minutes, gap_ms, server_mode, blackout, false)
+}
+
+/// `crowd`: 20 peers that do not support signed peers fill one bucket of the main table; the others (which do) only
+/// fit into the signed-peers table
+pub fn timeline_case_x(r: &mut Rng, n_peers: usize, minutes: u64, gap_ms: u64, server_mode: bool, blackout: Option<(u64, u64)>, crowd: bool) -> String {
     let t0 = 1000u64;
     simclock::set_ms(t0);
     tape_seed(r.next());
     let mut peers: Vec<Peer> = (0..n_peers).map(|i| Peer::new(peer_id(i, r))).collect();
     let mut node = Manual::new(&[peers[0].addr], server_mode, Default::default());
     let self_id = *node.actor.info().id().as_bytes();
+    if crowd {
+        // everybody in the bucket of distance 160 (first bit differs from the node's), distinct first bytes
+        for (i, p) in peers.iter_mut().enumerate() {
+            p.id[0] = ((!self_id[0]) & 0x80) | (i as u8 & 0x7f);
+            p.legacy = (1..=20).contains(&i);
+        }
+    }
     // identities: (id, address); a restart gives a peer a new identity at the same address
     let mut idents: Vec<([u8; 20], SocketAddrV4)> = peers.iter().map(|p| (p.id, p.addr)).collect();
+    let mut legacy: Vec<usize> = peers.iter().enumerate().filter(|(_, p)| p.legacy).map(|(i, _)| i).collect();
     let mut cur: Vec<usize> = (0..n_peers).collect();
     let mut up: Vec<bool> = vec![true; n_peers];
     let mut queue: VecDeque<Q> = VecDeque::new();
@@ -82,9 +96,15 @@ pub fn timeline_case(r: &mut Rng, n_peers: usize, minutes: u64, gap_ms: u64, ser
                 } else {
                     // restart: same address, new id
                     restarts += 1;
-                    let id = peer_id(100 + restarts * 3, r);
+                    let mut id = peer_id(100 + restarts * 3, r);
+                    if crowd {
+                        id[0] = peers[p].id[0];
+                    }
                     peers[p].id = id;
                     idents.push((id, peers[p].addr));
+                    if peers[p].legacy {
+                        legacy.push(idents.len() - 1);
+                    }
                     cur[p] = idents.len() - 1;
                     up[p] = true;
                 }
@@ -172,9 +192,10 @@ pub fn timeline_case(r: &mut Rng, n_peers: usize, minutes: u64, gap_ms: u64, ser
     }
     let _: MessageType;
     format!(
-        "KTimeline {} [{}] {} {} [{}]",
+        "KTimeline {} [{}] [{}] {} {} [{}]",
         n_hex(&self_id),
         idents.iter().map(|(id, a)| ident_coq(id, a)).collect::<Vec<_>>().join("; "),
+        legacy.iter().map(|k| format!("{}%nat", k)).collect::<Vec<_>>().join("; "),
         z(gap_ms as i128),
         z(t0 as i128),
         ticks.join("; ")
@@ -197,6 +218,11 @@ pub fn generate(seed: u64, scale: usize) -> Cases {
         let a = 10 + r.below(20);
         let b = a + 25 + r.below(15);
         o.push("timeline-blackout", timeline_case(&mut rr, 3 + i % 3, b + 30, 90_000, true, Some((a, b))));
+    }
+    for i in 0..scale {
+        // a full bucket of nodes without signed-peers support; the nodes with it live in the signed-peers table only
+        let mut rr = r.fork();
+        o.push("timeline-crowded-bucket", timeline_case_x(&mut rr, 24, 60, 60_000, i % 2 == 0, None, true));
     }
     o
 }
